@@ -130,7 +130,18 @@ class Encoder:
             li, lv, ri, rv = op.left_interp_indices, op.left_interp_values, op.right_interp_indices, op.right_interp_values
             ls, rs = batch + (R, int(li.shape[-1])), batch + (C, int(ri.shape[-1]))
             a, b, c, d = self.tensor(li, ls), self.tensor(lv, ls), self.tensor(ri, rs), self.tensor(rv, rs)
-            sub = self.enc(op.base_linear_op, batch)
+            base = op.base_linear_op
+            if (dg is O.InterpolatedLinearOperator._diagonal and isinstance(base, O.RootLinearOperator)
+                    and isinstance(base.root, O.DenseLinearOperator)
+                    and type(base.root)._get_indices is O.DenseLinearOperator._get_indices
+                    and tuple(base.batch_shape) == batch):
+                # the dense-root fast path of InterpolatedLinearOperator._diagonal (Lean: Opv.interpRoot / interpRootDiag)
+                rt = self.enc(base.root, batch)
+                if None in (a, b, c, d, rt):
+                    return None
+                self.fastpath = getattr(self, "fastpath", 0) + 1
+                return f"IPR {R} {C} {a} {b.split(' ', 1)[1]} {c} {d.split(' ', 1)[1]} {rt}"
+            sub = self.enc(base, batch)
             if None in (a, b, c, d, sub):
                 return None
             return f"IP {R} {C} {a} {b.split(' ', 1)[1]} {c} {d.split(' ', 1)[1]} {sub}"
